@@ -38,22 +38,44 @@ Section Loops.
     destruct (eval F s a) as [rd v]. destruct (rbind v _) as [[|]|u]; cbn [Bool.eqb]; try reflexivity.
     rewrite IH. reflexivity.
   Qed.
+  (* the strict n-ary fold of eval, named *)
+  Fixpoint nfold (o : nop) (s : store) (acc : nacc) (l : list expr) : list var * rs nacc :=
+    match l with
+    | [] => ([], Ok acc)
+    | e :: l' =>
+        let (rd, v) := eval F s e in
+        match v with
+        | Err u => (rd, Err u)
+        | Ok x =>
+            match nstep o acc x with
+            | None => (rd, Err false)
+            | Some acc' => let (r2, res) := nfold o s acc' l' in (rd ++ r2, res)
+            end
+        end
+    end.
+
   Lemma eval_nary s o l : o <> NAnd -> o <> NOr ->
-    eval F s (ENary o l) = (fst (eval_list F s l), rbind (snd (eval_list F s l)) (nary F o)).
+    eval F s (ENary o l) = (fst (nfold o s (ninit o) l), rbind (snd (nfold o s (ninit o) l)) (nfinish F o)).
   Proof.
     intros NA NO.
-    assert (E : (fix go (l : list expr) : list var * rs (list val) :=
+    assert (E : forall acc, (fix go (acc : nacc) (l : list expr) : list var * rs nacc :=
                    match l with
-                   | [] => ([], Ok [])
-                   | a :: l' =>
-                       let (r, v) := eval F s a in
+                   | [] => ([], Ok acc)
+                   | e :: l' =>
+                       let (r, v) := eval F s e in
                        match v with
                        | Err u => (r, Err u)
-                       | Ok x => let (r2, vs) := go l' in (r ++ r2, rmap (cons x) vs)
+                       | Ok x =>
+                           match nstep o acc x with
+                           | None => (r, Err false)
+                           | Some acc' => let (r2, res) := go acc' l' in (r ++ r2, res)
+                           end
                        end
-                   end) l = eval_list F s l).
-    { induction l as [|a l IH]; [reflexivity|]. cbn [eval_list]. rewrite IH. reflexivity. }
-    destruct o; try contradiction; cbn [eval]; rewrite E; destruct (eval_list F s l); reflexivity.
+                   end) acc l = nfold o s acc l).
+    { induction l as [|a l IH]; intros acc; [reflexivity|]. cbn [nfold].
+      destruct (eval F s a) as [rd [v|u]]; [|reflexivity].
+      destruct (nstep o acc v); [|reflexivity]. rewrite IH. reflexivity. }
+    destruct o; try contradiction; cbn [eval]; rewrite E; destruct (nfold _ s _ l); reflexivity.
   Qed.
 End Loops.
 
@@ -104,6 +126,21 @@ Section Ren.
     rewrite (IH Hfl s s' HR). destruct (eval_list F s l) as [r2 vs]. cbn [fst snd]. now rewrite map_app.
   Qed.
 
+  Lemma nstep_ren o acc v : nstep (ren_nop r o) acc v = nstep o acc v.
+  Proof. destruct o; reflexivity. Qed.
+  Lemma ninit_ren o : ninit (ren_nop r o) = ninit o.
+  Proof. destruct o; reflexivity. Qed.
+
+  Lemma nfold_ren o l : Forall EvalR l -> fsafe (flat_map funsyms l) -> forall acc s s', R s s' ->
+    nfold F (ren_nop r o) s' acc (map (ren r) l) = (map r (fst (nfold F o s acc l)), snd (nfold F o s acc l)).
+  Proof.
+    induction 1 as [|a l Ha _ IH]; intros Hf acc s s' HR; [reflexivity|].
+    cbn [flat_map] in Hf. apply fsafe_app in Hf. destruct Hf as [Hfa Hfl].
+    cbn [map nfold]. rewrite (Ha Hfa s s' HR). destruct (eval F s a) as [rd [v|u]]; cbn [fst snd]; [|reflexivity].
+    rewrite nstep_ren. destruct (nstep o acc v) as [acc'|]; [|reflexivity].
+    rewrite (IH Hfl acc' s s' HR). destruct (nfold F o s acc' l) as [r2 vs]. cbn [fst snd]. now rewrite map_app.
+  Qed.
+
   Lemma andor_ren stop l : Forall EvalR l -> fsafe (flat_map funsyms l) -> forall s s', R s s' ->
     andor F stop s' (map (ren r) l) = (map r (fst (andor F stop s l)), snd (andor F stop s l)).
   Proof.
@@ -131,11 +168,16 @@ Section Ren.
       rewrite (B Hb s s' HR). destruct (eval F s b). cbn [fst snd]. now rewrite map_app.
     - cbn [funsyms] in Hf. apply fsafe_app in Hf. destruct Hf as [Ho Hl].
       destruct o as [| | | | | |f kw]; cbn [ren_nop].
-      1-4: rewrite !eval_nary by discriminate; rewrite (eval_list_ren l IH Hl s s' HR); reflexivity.
+      1-4: rewrite !eval_nary by discriminate;
+           match goal with |- context [nfold F ?o0 _ (ninit ?o0) (map _ _)] =>
+             pose proof (nfold_ren o0 l IH Hl (ninit o0) _ _ HR) as Hn end;
+           cbn [ren_nop] in Hn; rewrite Hn; reflexivity.
       + rewrite !eval_and. apply andor_ren; assumption.
       + rewrite !eval_or. apply andor_ren; assumption.
-      + rewrite (Ho f) by (now left). rewrite !eval_nary by discriminate.
-        rewrite (eval_list_ren l IH Hl s s' HR). reflexivity.
+      + rewrite !eval_nary by discriminate.
+        pose proof (nfold_ren (NCall f kw) l IH Hl (ninit (NCall f kw)) s s' HR) as Hn.
+        cbn [ren_nop ninit] in Hn |- *. rewrite Hn. cbn [fst snd].
+        rewrite (Ho f) by (now left). reflexivity.
   Qed.
 
   Lemma eval_ren e s s' : fsafe (funsyms e) -> R s s' ->
@@ -217,12 +259,6 @@ Section RenStmt.
     Qed.
   End Iter.
 
-  Lemma eval_bound_ren e s s' : fsafe (funsyms e) -> R s s' ->
-    eval_bound F s' (ren r e) = (map r (fst (eval_bound F s e)), snd (eval_bound F s e)).
-  Proof.
-    intros Hf HR. unfold eval_bound. rewrite (eval_ren F r e s s' Hf HR). destruct (eval F s e). reflexivity.
-  Qed.
-
   Definition ren_loops (loops : list (var * expr * expr)) : list (var * expr * expr) :=
     map (fun l => (r (fst (fst l)), ren r (snd (fst l)), ren r (snd l))) loops.
   Definition loops_funsyms (loops : list (var * expr * expr)) : list string :=
@@ -237,8 +273,10 @@ Section RenStmt.
     - now apply Hb.
     - cbn [loops_funsyms flat_map fst snd] in Hf. apply fsafe_app in Hf. destruct Hf as [Hf Hfl].
       apply fsafe_app in Hf. destruct Hf as [Hlo Hhi].
-      rewrite (eval_bound_ren lo s s' Hlo HR). destruct (eval_bound F s lo) as [r1 [a|u]]; cbn [fst snd]; [|fin].
-      rewrite (eval_bound_ren hi s s' Hhi HR). destruct (eval_bound F s hi) as [r2 [b|u]]; cbn [fst snd]; [|fin].
+      rewrite (eval_ren F r lo s s' Hlo HR). destruct (eval F s lo) as [r1 [vl|u]]; cbn [fst snd]; [|fin].
+      rewrite (eval_ren F r hi s s' Hhi HR). destruct (eval F s hi) as [r2 [vh|u]]; cbn [fst snd]; [|fin].
+      destruct (bound_int vl) as [a|u1]; [|fin].
+      destruct (bound_int vh) as [b|u2]; [|fin].
       pose proof (iter_range_ren (run_loops F ls body) (run_loops F (ren_loops ls) body')
                                  (fun s0 s0' H0 => IH Hfl s0 s0' H0) ident (Z.to_nat (b - a)) a s s' HR) as [E1 E2].
       fold (ren_loops ls).
@@ -373,7 +411,7 @@ Section RenRun.
     match S, S' with
     | RRun s e, RRun s' e' => R r s s' /\ e = e'
     | RStop s e w, RStop s' e' w' => R r s s' /\ e = e' /\ w = w'
-    | RCrash u, RCrash u' => u = u'
+    | RCrash u e, RCrash u' e' => u = u' /\ e = e'
     | _, _ => False
     end.
 
@@ -421,7 +459,7 @@ Section Merge.
 
   Lemma run_list_stop l s e w : run_list l (RStop s e w) = RStop s e w.
   Proof. induction l as [|st l IH]; [reflexivity|exact IH]. Qed.
-  Lemma run_list_crash l u : run_list l (RCrash u) = RCrash u.
+  Lemma run_list_crash l u e : run_list l (RCrash u e) = RCrash u e.
   Proof. induction l as [|st l IH]; [reflexivity|exact IH]. Qed.
 
   Lemma run_cons_inv st l s e s' e' :
@@ -434,8 +472,8 @@ Section Merge.
     - change (run_list l (RStop s e StFail) = RRun s' e') in H. rewrite run_list_stop in H. discriminate.
     - change (run_list l (RStop s e (StSwitch p)) = RRun s' e') in H. rewrite run_list_stop in H. discriminate.
     - change (run_list l (RStop s e (StRaise k)) = RRun s' e') in H. rewrite run_list_stop in H. discriminate.
-    - change (run_list l (RCrash true) = RRun s' e') in H. rewrite run_list_crash in H. discriminate.
-    - change (run_list l (RCrash false) = RRun s' e') in H. rewrite run_list_crash in H. discriminate.
+    - change (run_list l (RCrash true e) = RRun s' e') in H. rewrite run_list_crash in H. discriminate.
+    - change (run_list l (RCrash false e) = RRun s' e') in H. rewrite run_list_crash in H. discriminate.
   Qed.
 
   (* footprints of the two lists: nothing one writes is touched by the other *)
